@@ -165,9 +165,11 @@ def cells(tier):
             dg = 1 if (quick and kind == "resendrequest") else digits
             out.append(Cell(f"step/{sname}/{kind}", (lambda I, st=st, kind=kind, dg=dg: h_step(I, st, [kind], dg)),
                             dict(b, state=sname, kind=kind, counters=f"symbolic in [1,10^{dg}-1]"), goals=goals, regions=reg, budget_s=1800))
-    pairs = [("app", "app"), ("app", "heartbeat"), ("gapfill", "app"), ("heartbeat", "app")]
+    # (reset, app) includes the history in which the journal write of the second message fails
+    # (the reset's own row occupies its number): delivery and counter must not depend on it
+    pairs = [("app", "app"), ("app", "heartbeat"), ("gapfill", "app"), ("heartbeat", "app"), ("reset", "app")]
     if not quick:
-        pairs += [("app", "gapfill"), ("reset", "app"), ("testrequest", "app"), ("resendrequest", "app"), ("app", "resendrequest")]
+        pairs += [("app", "gapfill"), ("testrequest", "app"), ("resendrequest", "app"), ("app", "resendrequest")]
     for a, bb in pairs:
         for sname, st in STATES.items():
             d2 = 1 if (quick or "resendrequest" in (a, bb) or a == "reset") else 2  # (2-digit counters with a ResendRequest or reset first step did not exhaust in 25-40 min)
